@@ -54,7 +54,7 @@ def extreme_specs(rng):
     out.append({"k": "Element", "kw": {"uniqueItems": True}})
     out.append({"k": "Array", "items": {"k": "Number", "kw": {}}, "kw": {"uniqueItems": True}})
     out.append({"k": "Element", "kw": {"uniqueItems": True, "items": {"k": "Element", "kw": {}}}})
-    for f in ("uuid", "date-time"):
+    for f in ("uuid", "date-time", "UUID", "Date-Time", "uuid ", "", "\u00fcuid"):      # case / spacing variants are OTHER names: accept-and-warn
         out.append({"k": "String", "kw": {"format": f}})
         out.append({"k": "Element", "kw": {"format": f}})
         out.append({"k": "AnyOf", "elements": [{"k": "String", "kw": {"format": f}}, {"k": "Null", "kw": {}}]})
